@@ -254,14 +254,32 @@ class Poly:
             return m2
         if not m2:
             return m1
-        d = dict(m1)
-        for a, e in m2:
-            v = d.get(a, 0) + e
-            if v == 0:
-                d.pop(a, None)
+        # both monomials are sorted by _ak(atom): linear merge
+        out = []
+        i = j = 0
+        n1, n2 = len(m1), len(m2)
+        while i < n1 and j < n2:
+            a1, e1 = m1[i]
+            a2, e2 = m2[j]
+            if a1 == a2:
+                e = e1 + e2
+                if e != 0:
+                    out.append((a1, e))
+                i += 1
+                j += 1
             else:
-                d[a] = v
-        return tuple(sorted(d.items(), key=lambda t: repr(t[0])))
+                k1, k2 = _ak(a1), _ak(a2)
+                if k1 < k2:
+                    out.append(m1[i])
+                    i += 1
+                else:
+                    out.append(m2[j])
+                    j += 1
+        if i < n1:
+            out.extend(m1[i:])
+        if j < n2:
+            out.extend(m2[j:])
+        return tuple(out)
 
     def __mul__(self, o):
         o2 = self._coerce(o)
@@ -373,6 +391,9 @@ class Poly:
 
     # -- three-valued comparisons -------------------------------------------------
     def _cmp(self, o, op):
+        if isinstance(o, float) and o in (float("inf"), float("-inf")):
+            up = o > 0      # a symbolic value is a finite real
+            return {"lt": up, "le": up, "gt": not up, "ge": not up, "eq": False, "ne": True}[op]
         o2 = self._coerce(o)
         if o2 is None:
             return NotImplemented
@@ -416,6 +437,18 @@ class Poly:
                 t = t * (base ** e)
             out = out + t
         return out
+
+
+_AK = {}
+
+
+def _ak(a):
+    """cached sort key of an atom (its repr)"""
+    k = _AK.get(a)
+    if k is None:
+        k = repr(a)
+        _AK[a] = k
+    return k
 
 
 class SymbolicValue(Exception):
@@ -910,3 +943,169 @@ class SQ:
         if r is NotImplemented or is_unknown(r):
             return r
         return not r
+
+
+# ======================================================================================
+# NQ: quaternion-valued expression in a free *-algebra (entry-level generators)
+# ======================================================================================
+
+_NQ_CTX = NCContext()
+
+
+class NQ:
+    """A quaternion scalar written as a non-commutative polynomial in *generator quaternions*
+    (entries of symbolic matrices) with real (Poly) coefficients; conjugation is the involution
+    (reverses words).  Much cheaper than 4-component SQ for similarity identities; components
+    .w/.x/.y/.z of a non-scalar expression are value-numbered atoms ('comp', key, p)."""
+
+    __slots__ = ("nc",)
+
+    def __init__(self, nc):
+        self.nc = nc
+
+    @staticmethod
+    def gen(name):
+        _NQ_CTX.gens.setdefault(name, Gen(name, kind="quat"))
+        return NQ(NC({((name, False),): Poly.const(1)}, _NQ_CTX))
+
+    @staticmethod
+    def scalar(c):
+        c = Poly.lift(c)
+        return NQ(NC({(): c} if not c.is_zero() else {}, _NQ_CTX))
+
+    @staticmethod
+    def lift(x):
+        if isinstance(x, NQ):
+            return x
+        if isinstance(x, Poly) or is_number(x):
+            return NQ.scalar(x)
+        if isinstance(x, SQ):
+            if all(c.is_zero() for c in x.c[1:]):
+                return NQ.scalar(x.c[0])
+            return None
+        return None
+
+    def is_scalar(self):
+        return all(w == () for w in self.nc.terms)
+
+    def scalar_value(self):
+        return self.nc.terms.get((), Poly())
+
+    def is_zero(self):
+        return self.nc.is_zero()
+
+    def same(self, o):
+        o = NQ.lift(o)
+        return o is not None and self.nc.same(o.nc)
+
+    def key(self):
+        return ("NQ", self.nc.key())
+
+    def __hash__(self):
+        return hash(self.key())
+
+    def __repr__(self):
+        return f"NQ[{self.nc!r}]"
+
+    def _comp(self, p):
+        if self.is_scalar():
+            return self.scalar_value() if p == 0 else Poly()
+        return Poly.atom(("comp", self.nc.key(), p))
+
+    w = property(lambda s: s._comp(0))
+    x = property(lambda s: s._comp(1))
+    y = property(lambda s: s._comp(2))
+    z = property(lambda s: s._comp(3))
+
+    @property
+    def c(self):
+        return tuple(self._comp(p) for p in range(4))
+
+    @property
+    def real(self):
+        return self._comp(0)
+
+    def __neg__(self):
+        return NQ(-self.nc)
+
+    def __pos__(self):
+        return self
+
+    def __add__(self, o):
+        o = NQ.lift(o)
+        if o is None:
+            return NotImplemented
+        return NQ(self.nc + o.nc)
+
+    __radd__ = __add__
+
+    def __sub__(self, o):
+        o = NQ.lift(o)
+        if o is None:
+            return NotImplemented
+        return NQ(self.nc - o.nc)
+
+    def __rsub__(self, o):
+        o = NQ.lift(o)
+        if o is None:
+            return NotImplemented
+        return NQ(o.nc - self.nc)
+
+    def __mul__(self, o):
+        if isinstance(o, Poly) or is_number(o):
+            return NQ(self.nc.scale(o))
+        o = NQ.lift(o)
+        if o is None:
+            return NotImplemented
+        return NQ(self.nc.mul(o.nc))
+
+    def __rmul__(self, o):
+        if isinstance(o, Poly) or is_number(o):
+            return NQ(self.nc.scale(o))
+        o = NQ.lift(o)
+        if o is None:
+            return NotImplemented
+        return NQ(o.nc.mul(self.nc))
+
+    def __truediv__(self, o):
+        if isinstance(o, Poly) or is_number(o):
+            return NQ(self.nc.scale(Poly.lift(o).inverse()))
+        return NotImplemented
+
+    def conjugate(self):
+        return NQ(self.nc.adj())
+
+    conj = conjugate
+
+    def norm2(self):
+        c = self.c
+        return c[0] * c[0] + c[1] * c[1] + c[2] * c[2] + c[3] * c[3]
+
+    def __abs__(self):
+        return self.norm2().sqrt()
+
+    def norm(self):
+        return self.norm2()
+
+    def __eq__(self, o):
+        o2 = NQ.lift(o)
+        if o2 is None:
+            return NotImplemented
+        if self.nc.same(o2.nc):
+            return True
+        if self.is_scalar() and o2.is_scalar():
+            return self.scalar_value() == o2.scalar_value()
+        return UNKNOWN(("eq", self, o2))
+
+    def __ne__(self, o):
+        r = self.__eq__(o)
+        if r is NotImplemented or is_unknown(r):
+            return r
+        return not r
+
+
+def as_quat(x):
+    """lift a value stored into a quaternion array: keep SQ / NQ, lift numbers and Poly to SQ"""
+    if isinstance(x, (SQ, NQ)):
+        return x
+    return SQ.lift(x)
